@@ -184,6 +184,11 @@ def check_property(prop, tier, a):
     t2 = [o for o in agg.values() if o['tier'] == 'T2']
     failed = [o for o in agg.values() if o['verdict'] == 'failed']
 
+    baseline = {}
+    bp = os.path.join(ROOT, 'baseline_obligations.json')
+    if os.path.exists(bp):
+        baseline = json.load(open(bp)).get(prop, {})
+    demoted = []
     # --- replay failed obligations natively ------------------------------------------
     violations = []      # dicts: fingerprint, replay record
     if failed:
@@ -197,6 +202,11 @@ def check_property(prop, tier, a):
                         'lineno': o['witness'].get('lineno'), 'detail': o['witness'].get('detail'),
                         'path': o['witness'].get('path'), 'native_replay': rep,
                         'smt2': o['witness'].get('smt', '')})
+            if rep.get('status') != 'reproduced' and baseline.get(o['oid']) != 'proved':
+                # a countermodel that does not replay, on an obligation that never verified on the committed
+                # baseline: undecided (DESIGN 2.1 step 6), not a violation
+                demoted.append({'contract': o['contract'], 'why': f"sat-unconfirmed on non-baseline obligation {o['kind']}:{o['label']}"})
+                continue
             violations.append({'fingerprint': o['oid'], 'record': rec, 'reproduced': rep.get('status') == 'reproduced',
                                'what': f"{o['kind']} obligation '{o['label']}' of {o['contract']} fails"})
 
@@ -263,11 +273,8 @@ def check_property(prop, tier, a):
         if o['verdict'] == 'unknown':
             undecided.append({'contract': o['contract'], 'why': f"solver unknown on {o['kind']}:{o['label']}"})
 
+    undecided += demoted
     # baseline comparison (obligations that were proved on the committed baseline)
-    baseline = {}
-    bp = os.path.join(ROOT, 'baseline_obligations.json')
-    if os.path.exists(bp):
-        baseline = json.load(open(bp)).get(prop, {})
     regress = [oid for oid, v in baseline.items() if v == 'proved' and agg.get(oid, {}).get('verdict') != 'proved']
     not_generated = [oid for oid in regress if oid not in agg]
 
